@@ -475,7 +475,39 @@ func c07RoundTripBody(reuse bool) (func(x *engine.X), int) {
 		}
 		x.Guard("wsframe.roundtrip/panic", func() {
 			f := websocket.NewFrame()
-			f[0] = b0
+			// the first byte is stored directly, or assembled with the builder methods: flags first and the opcode
+			// last, the opcode first and the flags last, or the opcode set twice (a recycled frame that is re-labelled)
+			setFlags := func() {
+				if b0&0x80 != 0 {
+					f.SetFIN()
+				}
+				if b0&0x40 != 0 {
+					f.SetRSV1()
+				}
+				if b0&0x20 != 0 {
+					f.SetRSV2()
+				}
+				if b0&0x10 != 0 {
+					f.SetRSV3()
+				}
+			}
+			switch x.Pick(4, "first byte: stored | builder, flags then opcode | builder, opcode then flags | builder, another opcode first, then flags, then the opcode") {
+			case 0:
+				f[0] = b0
+			case 1:
+				setFlags()
+				f.SetOpcode(websocket.Opcode(b0 & 0x0f))
+			case 2:
+				f.SetOpcode(websocket.Opcode(b0 & 0x0f))
+				setFlags()
+			default:
+				f.SetOpcode(websocket.Opcode((b0 & 0x0f) ^ 0x0f))
+				setFlags()
+				f.SetOpcode(websocket.Opcode(b0 & 0x0f))
+			}
+			if f[0] != b0 {
+				x.Fail("wsframe.builder/first-byte", "a frame assembled with the builder methods has first byte %08b, the flags and opcode asked for give %08b", f[0], b0)
+			}
 			if masked {
 				f.SetIsMasked()
 			}
